@@ -287,10 +287,26 @@ def step (cx : Ctx) (ws : List String) : Ctx × String :=
        | .none => out
        | _ => out ++ dump ts st')
     | none => (cx, "bad-op")
+  -- `lockprobe`: the nested public add (never under an armed failure: it is not a windowed call); the
+  -- model has no lock, so what the probe thread must see is a constant of the protocol
+  let dropAllocs (out : String) : String :=
+    if out.startsWith "allocs=" then " ".intercalate ((out.splitOn " ").drop 1) else out
+  let probe (r : Option (St × String)) : Ctx × String :=
+    match r with
+    | some (st', out) =>
+      ({ cx with st := st' }, "lockprobe " ++ dropAllocs out ++ (if cx.ts then " held=1 after=0" else " nolock") ++ dump cx.ts st')
+    | none => (cx, "bad-op")
   match ws with
   | ["fault", k] => ({ cx with armed := some (k.toNat!, false) }, "ok")
   | ["faultfrom", k] => ({ cx with armed := some (k.toNat!, true) }, "ok")
   | ["end"] => ({ cx with st := .none }, "end live=0 bad=0")
+  | ["lockprobe"] =>
+    probe (match cx.st with
+      | .none => none
+      | .list l c => stepList noFail l c ["addlast", "4c"]
+      | .queue q => stepQueue noFail q ["push", "4c"]
+      | .stack q => stepStack noFail q ["push", "4c"]
+      | .grow g => stepGrow noFail g ["add", "4c"])
   | ["new", kind] => fin false (stepNew plan kind false)
   | ["new", kind, opt] => let ts := (opt.toNat! &&& 1) != 0; fin ts (stepNew plan kind ts)
   | _ =>
@@ -394,6 +410,15 @@ def stepVec (st : VSt) (ws : List String) : VSt × String :=
   | ["fault", k] => ({ st with armed := some (k.toNat!, false) }, "ok")
   | ["faultfrom", k] => ({ st with armed := some (k.toNat!, true) }, "ok")
   | ["end"] => ({ st with v := none }, "end live=0 bad=0")
+  | ["lockprobe"] =>
+    match st.v with
+    | none => (st, "bad-op")
+    | some v =>
+      match v.addLastF noFail (some (List.replicate st.os 0x4c)) with
+      | .ok ((r, v'), _) =>
+        ({ st with v := some v' },
+         "lockprobe " ++ showBool r ++ (if st.ts then " held=1 after=0" else " nolock") ++ dumpVec st.ts v')
+      | .error f => (st, faultStr f)
   | ["new", m, os, opt] =>
     match nat? m, nat? os, nat? opt with
     | some m, some os, some opt =>
